@@ -321,16 +321,90 @@ def static_input_ops(prog) -> set[str]:
     return out
 
 
+def signature_helpers(ctx, hugr) -> tuple:
+    """private methods of Hugr that compute an offset from the signature (today: _order_port_offset): part of both entry points"""
+    return tuple(sorted(n_ for n_, m_ in hugr.methods.items() if n_.startswith("_") and n_ not in ("_constrain_offset",)
+                        and _reads_signature(ctx.canon.fn(m_, hugr.module, hugr))))
+
+
+def _direction_of(p):
+    for t, taken in p.tests:
+        if isinstance(t, ast.Compare) and isinstance(t.ops[0], ast.Eq):
+            txt = u(t)
+            if "OUTGOING" in txt:
+                return "out" if taken else "in"
+            if "INCOMING" in txt:
+                return "in" if taken else "out"
+    return None
+
+
+def _class_tests(p, taken):
+    from ..rulekit import unold_ast
+    return [set(_flat_or(unold_ast(t).args[1])) for t, k in p.tests if k == taken and isinstance(t, ast.Call) and u(t.func) == "isinstance" and len(t.args) == 2]
+
+
+def _ruled_out(p, all_paths) -> set:
+    """classes the path has established the operation is NOT an instance of: its own failed isinstance tests, and -- where it runs in
+    the handler of an exception -- those of every path that raises that exception"""
+    out = set().union(*_class_tests(p, False)) if _class_tests(p, False) else set()
+    for t, k in p.tests:
+        if k and isinstance(t, ast.Call) and u(t.func) == "except_" and t.args:
+            names = {u(e).split(".")[-1] for e in (t.args[0].elts if isinstance(t.args[0], ast.Tuple) else [t.args[0]])}
+            raisers = [r for r in all_paths if r.kind == "raise" and r.value is not None and u(r.value).split("(")[0].split(".")[-1] in names]
+            if raisers:
+                common = None
+                for r in raisers:
+                    neg = set().union(*_class_tests(r, False)) if _class_tests(r, False) else set()
+                    common = neg if common is None else (common & neg)
+                out |= common or set()
+    return out
+
+
+def _without_signature(p, all_paths, sig_paths) -> bool:
+    """the path has ruled out every way of getting a signature: each signature path needs the operation to be an instance of a class
+    this path knows it is not"""
+    ro = _ruled_out(p, all_paths)
+    return bool(sig_paths) and all((set().union(*_class_tests(h, True)) if _class_tests(h, True) else set()) & ro for h in sig_paths)
+
+
+def encoder_table(ctx):
+    """the order-port encoder as a table: {(classes the path established, direction): text of the offset written}, with the encoder's
+    `<port>.node` / `<port>.direction` spelled NODE_ / DIRECTION_; and the set of classes some path takes a signature for"""
+    from ..rulekit import unold_ast
+    hugr = ctx.program.cls(f"{BASE}.Hugr")
+    co = hugr.methods.get("_constrain_offset")
+    if co is None:
+        ctx.broken("anchor vanished: Hugr._constrain_offset")
+    param = co.args.args[1].arg
+    helpers = signature_helpers(ctx, hugr)
+    ps = [p for p in ctx.paths(f"{BASE}.Hugr._constrain_offset", inline=helpers) if p.kind == "return" and p.value_text() != f"{param}.offset"]
+    table = {}
+    dataflow = set()
+    for p in ps:
+        if not (".input" in p.value_text() or ".output" in p.value_text()) or any(n.attr in COUNTERS for n in ast.walk(p.value) if isinstance(n, ast.Attribute)):
+            continue
+        pos = _class_tests(p, True)
+        dataflow |= set().union(*pos) if pos else set()
+        key = (frozenset(set().union(*pos)) if pos else frozenset(), _direction_of(p))
+        txt = u(unold_ast(p.value)).replace(f"{param}.node", "NODE_").replace(f"{param}.direction", "DIRECTION_")
+        table.setdefault(key, set()).add(txt)
+    return table, dataflow, helpers
+
+
 def r5_order_offset(ctx, rule="C03.R5") -> None:
-    """stated over path summaries (hv/paths.py): insensitive to local names, guard-clause / if-else layout,
-    conditional expressions and extracted helpers"""
+    """stated over the path summaries (hv/paths.py) of Hugr._constrain_offset with the helpers that read the signature seen through:
+    insensitive to local names, guard-clause / if-else layout, conditional expressions, extracted helpers and records"""
     prog = ctx.program
     hugr = prog.cls(f"{BASE}.Hugr")
     file = hugr.module.path
     co = hugr.methods.get("_constrain_offset")
     if co is None:
         ctx.broken("anchor vanished: Hugr._constrain_offset")
-    ps = [p for p in ctx.paths(f"{BASE}.Hugr._constrain_offset") if p.kind == "return"]
+    # private methods of Hugr that compute an offset from the signature (today: _order_port_offset): part of the entry point
+    sig_helpers = tuple(sorted(n_ for n_, m_ in hugr.methods.items() if n_.startswith("_") and n_ != "_constrain_offset"
+                               and _reads_signature(ctx.canon.fn(m_, hugr.module, hugr))))
+    all_ps = ctx.paths(f"{BASE}.Hugr._constrain_offset", inline=sig_helpers)
+    ps = [p for p in all_ps if p.kind == "return"]
     param = co.args.args[1].arg
     order_paths = [p for p in ps if p.value_text() != f"{param}.offset"]
     if not order_paths:
@@ -338,47 +412,34 @@ def r5_order_offset(ctx, rule="C03.R5") -> None:
                  "no branch handles the order port (offset -1): it would be written as a negative offset", co)
         return
 
-    def helper_calls(e):
-        out = []
-        for c in ast.walk(e):
-            if isinstance(c, ast.Call) and isinstance(c.func, ast.Attribute) and u(c.func.value) == "self":
-                k, m = hugr.find_method(c.func.attr)
-                if m is not None and _reads_signature(ctx.canon.fn(m, k.module, k)):
-                    out.append((c, m))
-        return out
-
     def counter_reads(e):
         return [n for n in ast.walk(e) if (isinstance(n, ast.Attribute) and n.attr in COUNTERS) or (isinstance(n, ast.Name) and n.id in COUNTERS)]
 
-    sig_helpers = [h for p in order_paths for h in helper_calls(p.value)]
+    def class_tests(p, taken):
+        return [set(_flat_or(unold_ast(t).args[1])) for t, k in p.tests if k == taken and isinstance(t, ast.Call) and u(t.func) == "isinstance" and len(t.args) == 2]
+    from ..rulekit import unold_ast
+    hps = [p for p in order_paths if not counter_reads(p.value) and (".input" in p.value_text() or ".output" in p.value_text())]
+    # the classes some path takes a signature for: a counter may be returned only where the operation is none of them
+    dataflow = set().union(*[c_ for p in hps for c_ in class_tests(p, True)]) if hps else set()
     bad = []
     for p in order_paths:
         cr = counter_reads(p.value)
         if not cr:
             continue
-        # a counter may be returned only where the signature helper answered None (not a dataflow operation)
-        guarded = any((not taken) and isinstance(t, ast.Compare) and isinstance(t.ops[0], ast.IsNot) and helper_calls(t.left) for t, taken in p.tests)
-        # .. or raised its private "no order port" exception, caught on this path
-        from ..rulekit import raised_privately
-        for nm_ in [x for x in hugr.methods if _reads_signature(ctx.canon.fn(hugr.methods[x], hugr.module, hugr))]:
-            ex_ = raised_privately(hugr.methods[nm_])
-            if any(taken and isinstance(t, ast.Call) and u(t.func) == "except_" and t.args and u(t.args[0]).split(".")[-1] in ex_ for t, taken in p.tests):
-                guarded = True
-        if not guarded:
+        if not _without_signature(p, all_ps, hps):
             bad.append((p, cr[0]))
-    ok = bool(sig_helpers) and not bad
+    ok = bool(hps) and not bad
     where = bad[0][0].node if bad else co
     ctx.check(ok, rule, "Hugr._constrain_offset: order port from the signature", file, getattr(where, "lineno", co.lineno),
               "the offset written for a state-order edge is taken from the node's connection counters "
               f"(`{u(bad[0][1]) if bad else ''}`), which depend on how many ports happen to be linked: for a node whose last "
               "value port is unused the order edge lands on that value port. It must be the first port after the operation's value (and static) ports",
               where, expected="len(signature.input/output) (+1 for a static input)", found=bad[0][0].describe()[:200] if bad else "",
-              detail=f"from {sig_helpers[0][1].name}() with a counter fallback only for non-dataflow ops" if sig_helpers else "")
-    if not sig_helpers:
+              detail=f"signature paths for {sorted(dataflow)} with a counter fallback only for other operations")
+    if not hps:
         return
-    helper = sig_helpers[0][1]
-    hq = f"{BASE}.Hugr.{helper.name}"
-    hps = [p for p in ctx.paths(hq) if p.kind == "return" and not (isinstance(p.value, ast.Constant) and p.value.value is None)]
+    helper = hugr.methods[sig_helpers[0]] if sig_helpers else co
+    hname = helper.name
     # table: outgoing -> len(output); incoming -> len(input) + static input for exactly the ops that own one
     def dirn(p):
         for t, taken in p.tests:
@@ -393,13 +454,12 @@ def r5_order_offset(ctx, rule="C03.R5") -> None:
     ins = [p for p in hps if dirn(p) == "in"]
     out_ok = bool(outs) and all(".output" in p.value_text() and ".input" not in p.value_text() for p in outs)
     in_ok = bool(ins) and all(".input" in p.value_text() and ".output" not in p.value_text() for p in ins)
-    ctx.check(out_ok and in_ok and len(outs) + len(ins) == len(hps), rule, f"Hugr.{helper.name}: direction table", file, helper.lineno,
+    ctx.check(out_ok and in_ok and len(outs) + len(ins) == len(hps), rule, f"Hugr.{hname}: direction table", file, helper.lineno,
               "the order port must follow len(sig.output) for outgoing and len(sig.input)(+static) for incoming ports", helper,
               found="; ".join(p.describe() for p in hps)[:400])
     # operations with a static (function / constant) input port: frozen from specification/hugr.md (Call, LoadConstant, LoadFunction);
     # that the port_kind arms of exactly these classes offer a Function/Const kind on an input is C06.R3's business
     want = {"Call", "LoadConst", "LoadFunc"}
-    from ..rulekit import unold_ast
     named = set()
     shapes_ok = bool(ins)
     for p in ins:
@@ -409,32 +469,32 @@ def r5_order_offset(ctx, rule="C03.R5") -> None:
             # len(sig.input) + int(isinstance(op, A | B | C))
             named |= set().union(*in_value)
             continue
-        pos = [set(_flat_or(unold_ast(t).args[1])) for t, taken in p.tests if taken and isinstance(t, ast.Call) and u(t.func) == "isinstance" and len(t.args) == 2]
+        pos = class_tests(p, True)
         txt = u(val)
         if txt.endswith("+ 1"):
             # the most specific class test taken on this path names the owners it counts a static input for
             named |= pos[-1] if pos else {"?"}
         elif not (txt.endswith("+ 0") or "+" not in txt):
             shapes_ok = False
-    ctx.check(shapes_ok and named == want, rule, f"Hugr.{helper.name}: static input owners", file, helper.lineno,
+    ctx.check(shapes_ok and named == want, rule, f"Hugr.{hname}: static input owners", file, helper.lineno,
               f"the operations counted as having a static input port ({sorted(named)}) must be exactly those whose port_kind offers a "
               f"Function/Const kind on an input ({sorted(want)})", helper, expected=str(sorted(want)), found=str(sorted(named)))
     # only Call (which is not a DataflowOp) takes its value ports from its instantiation; every DataflowOp from outer_signature()
     inst_guards = []
     for p in hps:
         if ".instantiation" in p.value_text():
-            taken = [set(_flat_or(t.args[1])) for t, k in p.tests if k and isinstance(t, ast.Call) and u(t.func) == "isinstance" and len(t.args) == 2]
+            taken = class_tests(p, True)
             narrow = set.intersection(*taken) if taken else set()
             inst_guards.append(narrow)
     ok = bool(inst_guards) and all(g == {"Call"} for g in inst_guards)
-    ctx.check(ok, rule, f"Hugr.{helper.name}: only Call reads its instantiation", file, helper.lineno,
+    ctx.check(ok, rule, f"Hugr.{hname}: only Call reads its instantiation", file, helper.lineno,
               f"the paths that take the value ports from `.instantiation` must apply to Call only (found {inst_guards}): LoadFunc is a DataflowOp whose own "
               "signature is [] -> [instantiation], so its order port follows outer_signature()", helper, expected="[{'Call'}]", found=str(inst_guards))
-    ctx.check(bool(inst_guards), rule, f"Hugr.{helper.name}: Call uses its instantiation", file, helper.lineno,
+    ctx.check(bool(inst_guards), rule, f"Hugr.{hname}: Call uses its instantiation", file, helper.lineno,
               "for Call the value ports are those of the instantiated signature (Call is not a DataflowOp)", helper)
     others = [p for p in hps if ".instantiation" not in p.value_text()]
     ok = bool(others) and all("outer_signature()" in p.value_text() for p in others)
-    ctx.check(ok, rule, f"Hugr.{helper.name}: dataflow ops use their outer signature", file, helper.lineno,
+    ctx.check(ok, rule, f"Hugr.{hname}: dataflow ops use their outer signature", file, helper.lineno,
               "every dataflow operation other than Call takes its value ports from outer_signature()", helper)
 
 
